@@ -26,7 +26,7 @@ ASSUMPTIONS = [
 ]
 FUZZ_RUNS = 40000   # thorough tier: libFuzzer runs per campaign of the coverage-guided stage (vf/fuzz.py)
 BUDGET = {
-    "quick": {"examples": 300, "workers": 8, "time_cap": 70},
+    "quick": {"examples": 400, "workers": 8, "time_cap": 70},
     "thorough": {"examples": 10000, "workers": 14, "time_cap": 900},
 }
 URLS = ["http://tracker.example/announce", "udp://t2.example:6969", "https://a.b/c?d=e&f=g", "http://h:1/a;b", "u", "wss://t/#frag"]
